@@ -182,6 +182,11 @@ theorem json_redict_stable (p l : Bool) (e : EDS) (h : e.ids.Nodup) :
 
 /-! ## "EDS-PENMAN does the same for graphs connected from the top" -/
 
+-- F40 (known finding, not expressible in this model): the theorem below is about `to_triples`/`from_triples` only; the
+-- penman library between them is an identity PARAMETER.  On the real code that identity fails when a predicate string
+-- equals a node identifier (penman rewrites that `:instance` triple as an inverted edge), so the text-level statement
+-- needs the extra hypothesis "no predicate is a node identifier"; at the triple level no such hypothesis is needed and
+-- none is stated.  The loss is demonstrated by the oracle on corpus/C03 and recognised by `harness.c03.classify`.
 /-- [core] for a graph whose top is a node from which every node is reachable: the triples read back give the top
 and every node (top first) with the same predicate, type, edges, properties, constant and alignment. -/
 theorem penman_roundtrip (p l : Bool) (e : EDS) (t : Str)
